@@ -60,7 +60,7 @@ func runC04(a *A) {
 	c04R5(a, r)
 	c04R6(a, r, ar)
 	// R7: nothing is lost between the socket and the parser
-	if rc := resolveRolesG(a, "C04-R0", "c"); rc != nil {
+	if rc := resolveRolesG(a, "C04-R0", "r"); rc != nil {
 		readerForwardsAll(a, "C04-R7", rc)
 	}
 }
